@@ -391,8 +391,40 @@ func runC20(t *testing.T, id string, steps []c20Step) {
 			// a spurious reconcile of a name that did not change
 		}
 		hookMark := w.hooks.Mark()
+		// a delete that arrives while a sync of the instance is in flight: the hook call of that
+		// sync is held until Reconcile has returned (or 300 ms have passed: a Stop that waits for
+		// its workers cannot return before the call is answered)
+		var released chan struct{}
+		if st.Op == "delete" && prevInstance != nil && c20StartsOK(w.spec[i]) && w.spec[i] != "no-sync-hook" {
+			released = make(chan struct{})
+			entered := make(chan struct{}, 1)
+			prefix := fmt.Sprintf("c%d/g%d/", i, prevGen)
+			rel := released
+			w.hooks.SetGate(func(call *sim.HookCall) {
+				if !strings.HasPrefix(call.Path, prefix) {
+					return
+				}
+				select {
+				case entered <- struct{}{}:
+				default:
+				}
+				select {
+				case <-rel:
+				case <-time.After(300 * time.Millisecond):
+				}
+			})
+			touch(i)
+			select {
+			case <-entered:
+			case <-time.After(2 * time.Second):
+			}
+		}
 		rerr, pan := w.reconcile(i)
 		returnedAt := atomic.LoadInt64(s.Clock())
+		if released != nil {
+			close(released)
+			w.hooks.SetGate(nil)
+		}
 		if pan != "" {
 			viol("panic:"+sim.PanicSite(pan)+":"+st.Spec, "Reconcile panicked (this takes the whole process down): "+pan)
 			return
@@ -454,6 +486,17 @@ func runC20(t *testing.T, id string, steps []c20Step) {
 						viol("hook-call-after-stop:"+st.Op, fmt.Sprintf("after Reconcile returned for %s, the stopped instance (generation %d) still called its hook %s", st, cg, c.Path))
 						break
 					}
+				}
+			}
+		}
+		// (2b) ... and no API write is made on its behalf after the stop
+		if released != nil {
+			settle()
+			mine := fmt.Sprintf("p%d", i)
+			for _, q := range s.Since(reqMark) {
+				if q.Actor == "mc" && q.Mutating() && q.Seq > returnedAt && strings.Contains(q.Name, mine) {
+					viol("api-write-after-stop:delete", fmt.Sprintf("after Reconcile returned for %s (a sync was in flight when the stop arrived), the stopped instance still sent %s", st, q.String()))
+					break
 				}
 			}
 		}
